@@ -851,7 +851,7 @@ def m_cases(ctx: vlib.Ctx, n: int):
 
 
 def coq_part(ctx: vlib.Ctx):
-    br = ctx.theorems("props/C20_schema.vo", THEOREMS + RT_THEOREMS + ["C20_override_noop", "C20_override_covered", "C20_override_origin_key", "C20_chain_mono", "C20_chain_total_partial", "C20_chain_total_refuted", "C20_chain_cycle_diverges", "C20_default_value_is_ref_enc", "C20_default_prerendered", "C20_default_scalars"], kernels=["K9"])
+    br = ctx.theorems("props/C20_schema.vo", THEOREMS + RT_THEOREMS + ["C20_override_noop", "C20_override_covered", "C20_override_origin_key", "C20_chain_mono", "C20_chain_total_partial", "C20_chain_total_refuted", "C20_chain_cycle_diverges", "C20_chain_agrees_flat", "C20_chain_covered", "C20_default_value_is_ref_enc", "C20_default_prerendered", "C20_default_scalars"], kernels=["K9"])
     if br.ok and not ctx.quick():
         rc, out, _ = vlib.run(["timeout", "900", "coqchk", "-silent", "-o"] + vlib.COQ_FLAGS[:9] + ["VerifProps.C20_schema"],
                               cwd=vlib.COQ, timeout=930)
